@@ -2,7 +2,7 @@
 # usage: tools/verify_seeded.sh <ID> <n> [demo-dir]   (inputs in /tmp/wt-out/<ID>/<n>/)
 # Confirms in a scratch worktree: patch applies+builds, existing tests of touched packages pass with the patch,
 # the demo fails with the patch and passes without it. Then runs our check against the patch (VERIF_PATCH).
-ID=$1; N=$2; SRC=/tmp/wt-out/$ID/$N
+ID=$1; N=$2; SRC=${SRCROOT:-/tmp/wt-out}/$ID/$N
 export GOFLAGS=-mod=mod GOPROXY=off GOSUMDB=off
 W=/tmp/vt-$ID-$N
 git -C /repo worktree remove --force $W >/dev/null 2>&1
